@@ -172,6 +172,15 @@ def build_case(dev: str, seq: Sequence[int], mode: str, use_clamped: bool, place
     if placement == "setup":
         src = common.script(decl.split("\n") + lines, prologue=PRO)
         passes = 0
+    elif placement == "rebind":
+        # the name is bound to a second device (other pins) between the two commands: each command drives the device the
+        # name stood for when it ran
+        second = REBIND_DECL.get(dev)
+        if second is None or len(seq) != 2:
+            return None
+        per_op = len(lines) // 2
+        src = common.script(decl.split("\n") + lines[:per_op] + [second] + lines[per_op:], prologue=PRO)
+        passes = 0
     elif placement == "in_if":
         # the commands sit in a branch (taken at run time) and nowhere else
         src = common.script(decl.split("\n") + ["gate = analog_read(\"A5\")", "if gate >= 0:"] + common.indent(lines), prologue=PRO)
@@ -195,6 +204,7 @@ def build_case(dev: str, seq: Sequence[int], mode: str, use_clamped: bool, place
             "oor": clamped_any, "pair": f"{dev}:{mode}:{placement}:{seq}" if clamped_any else None}
 
 
+REBIND_DECL = {"led": "led = Led(2 * 3)", "rgb": "rgb = RGBLed(9, 10, 11)", "motor": "m = DCMotor(2, 8, 5)"}  # (a re-bound Servo keeps its first pin: the KF-C05-rebind class)
 CORES = {
     "led_pair": list(range(12)), "rgb_pair": list(range(10)), "servo_pair": list(range(6)), "motor_pair": list(range(10)),
     "led": [0, 1, 2, 5, 9, 12, 15, 19],
@@ -275,7 +285,7 @@ def generate(tier: str, only=None) -> Iterator[dict]:
                 if mode == "lit" and len(seq) == 1:
                     placements = placements + ("helper_above", "helper_above_looptop")
                 if mode == "lit" and len(seq) == 2 and all(i in core for i in seq):
-                    placements = placements + ("helper_above", "in_if")
+                    placements = placements + ("helper_above", "in_if") + (("rebind",) if dev in REBIND_DECL else ())
                 if mode == "rt" and len(seq) > 2 and not (tier == "thorough" and len(seq) == 3 and all(i in core for i in seq)):
                     continue
                 for placement in placements:
